@@ -409,6 +409,92 @@ def rule_reset(ctx):
     ctx.check("C16.reset", len(det) == 1, where(NET, "YowNetworkLayer.onDisconnected", fn3.lineno), "disconnected event is detached", "the disconnected event must be deferred (detached)", "detached")
 
 
+def rule_reset_buffers(ctx):
+    """"transport state is reset so that a later connect starts fresh": the stack - and with it every layer object - is
+    reused across connections.  For every core transport layer: a layer built by its constructor receives the beginning
+    of a frame (segmentation on); whatever containers the constructor left empty and this receive filled are the
+    layer's per-connection read state; after the layer's handler of the disconnected event they must be empty again (a
+    layer without such a handler keeps the rest of a cut-off frame and glues it in front of the next connection's
+    stream)."""
+    from ..stackmodel import default_layers, flatten, FLAGS
+    repo = ctx.repo
+    net = repo.cls(NET, "YowNetworkLayer")
+    EV_DISCONNECTED = alts(Evaluator(repo, net.module, net).class_const(net, "EVENT_STATE_DISCONNECTED"))[0]
+    v, _se = default_layers(repo, dict.fromkeys(FLAGS, True))
+    layers = flatten(v)
+    if layers is None:
+        ctx.undecided("C16.reset", where("yowsup/stacks/yowstack.py", "YowStackBuilder.getDefaultLayers", None), "default stack", "not evaluated")
+        return
+    core = [L for L in layers[:5] if not isinstance(L, list)]
+
+    def is_empty_container(x):
+        return (x[0] == "c" and isinstance(x[1], (bytearray, bytes, list, dict)) and len(x[1]) == 0) or (x[0] in ("list", "dict") and not x[1] and not (len(x) > 2 and x[2]))
+
+    def content(x):
+        if x[0] == "c" and isinstance(x[1], (bytearray, bytes)):
+            return bytes(x[1])
+        if x[0] in ("list", "dict"):
+            return len(x[1])
+        return repr(x)[:40]
+    n = 0
+    for L in core:
+        if L is net or "receive" not in {m for k in repo.mro(L) for m in k.methods if k.name != "YowLayer"}:
+            continue
+        props = {}
+        for k in repo.mro(L):
+            for cname, ce in k.consts.items():
+                if cname.startswith("PROP_"):
+                    a = alts(Evaluator(repo, k.module, k).ev(ce))
+                    if a and len(a) == 1:
+                        props[a[0]] = True
+        runner = LayerRunner(repo, props)
+        it = Interp(repo, {}, {}, hooks=runner.hooks())
+        it.layer_base = runner.base
+        try:
+            layer = runner.make_layer(it, L)
+            state0 = {f: x for f, x in layer[1].fields.items() if isinstance(x, tuple) and is_empty_container(x)}
+            if not state0:
+                continue
+        except Exception:
+            continue
+        try:
+            it.method_call(layer, "receive", [("c", bytearray(b"\x00\x00\x05ab"))], {}, {"@module": L.module, "@owner": L}, 0, None)
+        except Exception:
+            pass                # a receive that cannot be followed to its end on raw bytes: what it stored so far is looked at
+        dirty = {f for f in state0 if f in layer[1].fields and not is_empty_container(layer[1].fields[f])}
+        if not dirty:
+            continue
+        n += 1
+        w = where(L.relpath, L.name, None)
+        handlers = []
+        for k in repo.mro(L):
+            for mname, fn in k.methods.items():
+                for d in fn.decorator_list:
+                    if isinstance(d, ast.Call) and unparse(d.func).split(".")[-1] == "EventCallback" and d.args:
+                        a = alts(Evaluator(repo, k.module, k).ev(d.args[0]))
+                        if a and a[0] == EV_DISCONNECTED and mname not in [h for h in handlers]:
+                            handlers.append(mname)
+        left = None
+        if handlers:
+            ev = _event_obj(repo)
+            ev.fields["name"] = ("c", EV_DISCONNECTED)
+            try:
+                for h in handlers:
+                    it.method_call(layer, h, [("obj", ev)], {}, {"@module": L.module, "@owner": L}, 0, None)
+            except _Raise as r:
+                left = "the handler raises %s" % r.text[:50]
+            if left is None:
+                still = sorted(f for f in dirty if not is_empty_container(layer[1].fields.get(f, ("c", None))))
+                if still:
+                    left = "%s still hold%s %r after %s" % (", ".join("self." + f for f in still), "s" if len(still) == 1 else "", content(layer[1].fields[still[0]]), "/".join(handlers))
+        else:
+            left = "the layer has no handler for the disconnected event: %s keep%s what the dead connection left (%r)" % (", ".join("self." + f for f in sorted(dirty)), "s" if len(dirty) == 1 else "", content(layer[1].fields[sorted(dirty)[0]]))
+        ctx.check("C16.reset", left is None, w, "read buffers of %s are empty again after the disconnected event" % L.name,
+                  "%s - the rest of a frame that the connection cut off is glued in front of the next connection's stream (the layer object is reused across connections)" % left,
+                  "%s reset by %s" % (", ".join(sorted(dirty)), "/".join(handlers)))
+    ctx.units["C16.layers_with_read_buffers"] = n
+
+
 def rule_ping(ctx, tier):
     repo = ctx.repo
     cls = repo.cls(IQL, "YowIqProtocolLayer")
@@ -614,6 +700,7 @@ def run(ctx):
     ctx.guarded("C16.auth", rule_auth, ctx)
     ctx.guarded("C16.iface", rule_iface, ctx)
     ctx.guarded("C16.reset", rule_reset, ctx)
+    ctx.guarded("C16.reset", rule_reset_buffers, ctx)
     # options switched off must stay off: the property table's semantics (C18.prim), adopted
     from .c18 import rule_prim
     ctx.guarded("C16.iface", rule_prim, ctx, "C16.iface", ("prop",))
